@@ -1054,6 +1054,8 @@ struct TokCtx<'a> {
     toks: Vec<(usize, Token<'a>, usize)>,
     i: usize,
     out: Vec<String>,
+    /// emit a token for the empty literals that strip_indent leaves in multiline strings
+    keep_empty: bool,
 }
 
 enum Chunk {
@@ -1074,6 +1076,10 @@ impl<'a> TokCtx<'a> {
             match tok {
                 Token::Normal(nt) => match nt {
                     NormalToken::Identifier(x) => self.out.push(format!("I{}", tok_escape(x))),
+                    // the contextual keywords are identifiers for the grammar (rule `Ident`)
+                    NormalToken::Or => self.out.push("Ior".into()),
+                    NormalToken::As => self.out.push("Ias".into()),
+                    NormalToken::Include => self.out.push("Iinclude".into()),
                     NormalToken::DecNumLiteral(n)
                     | NormalToken::HexNumLiteral(n)
                     | NormalToken::OctNumLiteral(n)
@@ -1171,7 +1177,11 @@ impl<'a> TokCtx<'a> {
         }
         for (k, c) in chunks.into_iter().enumerate() {
             match c {
-                Chunk::Lit(x) => self.out.push(format!("L{}", tok_escape(&x))),
+                Chunk::Lit(x) => {
+                    if !x.is_empty() || self.keep_empty {
+                        self.out.push(format!("L{}", tok_escape(&x)))
+                    }
+                }
                 Chunk::Expr(inner) => {
                     self.out.push(format!("X{}", indents[k]));
                     self.out.extend(inner);
@@ -1186,6 +1196,16 @@ impl<'a> TokCtx<'a> {
 
 /// The token stream of `src` in the model's vocabulary (space separated), or the lexical error.
 pub fn tokens(src: &str) -> Result<String, String> {
+    tokens_with(src, false)
+}
+
+/// Same, but the empty literal chunks that `strip_indent` leaves in multiline strings are kept as
+/// `L` tokens (the parser sees them, unless it drops them itself).
+pub fn tokens_keep_empty(src: &str) -> Result<String, String> {
+    tokens_with(src, true)
+}
+
+fn tokens_with(src: &str, keep_empty: bool) -> Result<String, String> {
     let mut toks = Vec::new();
     for t in Lexer::new(src) {
         match t {
@@ -1193,7 +1213,7 @@ pub fn tokens(src: &str) -> Result<String, String> {
             Err(e) => return Err(format!("lex error: {e:?}")),
         }
     }
-    let mut cx = TokCtx { src, toks, i: 0, out: Vec::new() };
+    let mut cx = TokCtx { src, toks, i: 0, out: Vec::new(), keep_empty };
     cx.normal(false)?;
     Ok(cx.out.join(" "))
 }
